@@ -17,11 +17,46 @@ import rules_c05  # noqa: F401
 from props import PROPS
 
 
+def _one(job):
+    import io
+    import contextlib
+
+    p, rest = job
+    buf = io.StringIO()
+    with contextlib.redirect_stdout(buf):
+        try:
+            r = main([p] + rest)
+        except SystemExit as e:
+            r = int(e.code or 0)
+    return r, buf.getvalue()
+
+
 def main(argv):
     # several properties in one process (tools only): ./check C01,C04,... [--repo ..]
     if argv and "," in argv[0]:
+        props = argv[0].split(",")
+        jobs = int(os.environ.get("VERIF_JOBS", "6") or 1)
+        if jobs > 1 and len(props) > 1:
+            # extract once (fills the fact cache), then one forked worker per property
+            repo = argv[argv.index("--repo") + 1] if "--repo" in argv else None
+            tag = argv[argv.index("--tag") + 1] if "--tag" in argv else "main"
+            try:
+                factsmod.extract(repo=repo, profile="dev", target_tag=tag)
+            except RuntimeError as e:
+                print("INTERNAL: %s" % e)
+                return 2
+            import multiprocessing
+
+            with multiprocessing.get_context("fork").Pool(min(jobs, len(props))) as pool:
+                outs = pool.map(_one, [(p, argv[1:]) for p in props])
+            rc = 0
+            for p, (r, text) in zip(props, outs):
+                print("=== %s" % p)
+                sys.stdout.write(text)
+                rc = max(rc, r)
+            return rc
         rc = 0
-        for p in argv[0].split(","):
+        for p in props:
             print("=== %s" % p)
             rc = max(rc, main([p] + argv[1:]))
         return rc
